@@ -103,7 +103,7 @@ func (s *session) initialize(ctx *gin.Context) error {
 
 	s.muxer = muxer
 
-	muxerFormats, err := s.muxer.addSession(s)
+	muxerFormats, err := s.muxer.formats()
 	if err != nil {
 		s.path.RemoveReader(defs.PathRemoveReaderReq{Author: s})
 		return err
@@ -137,6 +137,14 @@ func (s *session) initialize(ctx *gin.Context) error {
 		Reader:          *s.APIReaderDescribe(),
 		Query:           s.query,
 	})
+
+	// make the session visible to the muxer (that can close it at any time)
+	// only when it is fully initialized.
+	err = s.muxer.addSession(s)
+	if err != nil {
+		s.close2(err)
+		return err
+	}
 
 	return nil
 }
